@@ -21,6 +21,11 @@ pub fn worker_case(case: &str) -> String {
     let arg = |s: Option<&str>| s.and_then(unhex).unwrap_or_default();
     match entry {
         "L" => load_reply(&arg(it.next())),
+        // the same file loaded 12 times in a row (schedule-dependent hangs of the parallel phase need a few tries)
+        "AR" => { let b = arg(it.next()); let t = std::time::Instant::now(); let mut last = 0usize; let mut errs = 0;
+                  for _ in 0..12 { match Document::load_mem(&b) { Ok(d) => last = d.objects.len(), Err(_) => errs += 1 } }
+                  let hwm = std::fs::read_to_string("/proc/self/status").ok().and_then(|s| s.lines().find(|l| l.starts_with("VmHWM:")).and_then(|l| l.split_whitespace().nth(1).and_then(|v| v.parse::<u64>().ok()))).unwrap_or(0);
+                  format!("{} rss_kb={} ms={}", if errs == 0 { format!("ok {}", last) } else { "err".into() }, hwm, t.elapsed().as_millis()) }
         // amplification probe: load, then report the peak resident set of this (fresh) worker process and the time taken
         "A" => { let b = arg(it.next()); let t = std::time::Instant::now();
                  let r = Document::load_mem(&b).map(|d| d.objects.len());
@@ -118,6 +123,20 @@ fn amplification_cases() -> Vec<(&'static str, String)> {
         let f = file_with(&objs, &ents);
         v.push((tag, format!("A {}", hex_tok(&f))));
     }
+    // (g) many object streams with members that take a while to parse, loaded repeatedly: the nested parallel iterators of the
+    //     object pass and of ObjectStream::new steal work from each other — nothing may be held across them
+    { let containers = 32usize; let members = 64usize;
+      let mut objs: Vec<(u32, String)> = vec![(1, "<</Type/Catalog>>".into())];
+      let member = { let mut m = String::from("["); for k in 0..150 { m.push_str(&format!("{} ", k)); } m.push(']'); m };
+      for cidx in 0..containers {
+          let mut index = String::new(); let mut body = String::new();
+          for k in 0..members { index.push_str(&format!("{} {} ", 1000 + cidx * members + k, body.len())); body.push_str(&member); body.push(' '); }
+          let content = format!("{}{}", index, body);
+          objs.push((2 + cidx as u32, format!("<</Type/ObjStm/N {}/First {}/Length {}>>\nstream\n{}\nendstream", members, index.len(), content.len(), content)));
+      }
+      let ents: Vec<(u32, usize)> = (0..objs.len()).map(|i| (objs[i].0, i)).collect();
+      let f = file_with(&objs, &ents);
+      v.push(("many-objstm", format!("AR {}", hex_tok(&f)))); }
     // (e) n streams sharing one indirect Length object
     { let mut objs: Vec<(u32, String)> = vec![(1, "<</Type/Catalog>>".into()), (2, "3".into())];
       for k in 0..n.min(1500) { objs.push((3 + k as u32, "<</Length 2 0 R>>\nstream\nabc\nendstream".into())); }
